@@ -11,4 +11,12 @@ CLAIMS = {
   "text": "Theorems (Coq, no axioms): lock-free ring - FIFO (yielded = prefix of accepted, in linearisation order), capacity (tail-head <= N), a 'full' answer is justified by N slot ids each accepted-unreleased or held by another send in progress (coverage invariant), an 'empty' answer is exact unless another consumer holds a lower un-receded reservation; that exception is a proven refutation (C02_ring_empty_refuted, finding F5, listed as known finding). Full-sync ring: mutual exclusion, capacity, EXACT full/empty. Tied to the code by lock-step trace equality on the two rings and the two movable Uni channels every run.",
   "note": "Trusted: Coq kernel + vm_compute, hand-written models, harness + verif shim, SC semantics; the oracle's reading of 'full at some instant' is the property's own enumeration of slot holders. The crossbeam / zero-copy Uni channels are not yet in a lock-step suite.",
  },
+ "C04": {
+  "text": "Theorem (Coq, no axioms) on the movable full-sync Uni channel machine - the very model the lock-step correspondence runs against the code: for every schedule, any number of producers/length queries/cancel_all callers, every MAX_STREAMS and every 0<k<=MAX_STREAMS task-driven streams, the state 'all producers returned, events pending, every stream parked and un-notified' is unreachable (inductive invariant WInv, 700 lines). For the movable atomic (lock-free ring) channel the property is REFUTED by two vm_compute witnesses (F1 overlapping sends, F13 two streams / one send) which are replayed on the implementation every run and listed as known findings; any lost wake-up outside those classes (in particular any on the full-sync channel, or with one stream and serial sends on the atomic one) is reported as a violation.",
+  "note": "Partial: proved for the full-sync movable Uni channel with send/send_with; the crossbeam, zero-copy and Multi kinds and the send_with_async / try_send_reserved entry points are not yet in this model. Trusted: harness executor = documented Waker contract (not tokio), SC semantics, plain waker-slot / keep-flag cells treated as atomic per element.",
+ },
+ "C07": {
+  "text": "Theorem (Coq, no axioms) on the same machine: after cancel_all_streams a targeted stream is never left parked un-notified with its keep flag cleared, for every schedule / any number of producers and cancellers / any MAX_STREAMS / any number of task-driven streams (same invariant as C04: the self-wake after storing a waker closes the registration window; buffered events are still yielded first - see the non-vacuity example). Lock-step correspondence on both movable Uni channels with cancel_all in the programs; quiescence oracle on the implementation traces.",
+  "note": "Partial: theorem proved for the full-sync instance (the lock-free-ring instance runs the same streams-manager code and is covered by correspondence + oracle); gracefully_end_stream's timed re-wake loop and report_stream_dropped are not in this model; 'untargeted streams unaffected' is not exercised because cancel_all targets every stream.",
+ },
 }
